@@ -124,6 +124,19 @@ def rules(ctx):
                 ctx.inst('R05.2', fn, lp, name in ('__iadd__', '__isub__'),
                          "iterates the other operand's items (read-modify-write of existing keys)" if name in ('__iadd__', '__isub__')
                          else "%s iterates `%s` while writing self" % (name, src(it)), nontrivial=False)
+    ip = da.methods.get('__ipow__')
+    if ip is not None:
+        sn = R.self_name(ip)
+        fe = E.effects(ip)
+        for n in walk_no_nested(strip_docstring(ip.node.body)):
+            if isinstance(n, ast.AugAssign) and is_name(n.target, sn) and isinstance(n.op, ast.Mult):
+                st = fe.state_at.get(n, {})
+                o = E.origins(n.value, st, ip, 'DictArithmetic', None)
+                ok = bool(o) and all(x.startswith('fresh@') for x in o)
+                ctx.inst('R05.2', ip, n, ok,
+                         "the repeated factor is a copy taken before the loop" if ok else
+                         "`%s` multiplies self by an object that may be self itself (%s): after the first "
+                         "multiplication the factor is no longer the original base" % (src(n), sorted(o)))
     im = da.methods.get('__imul__')
     if im is not None:
         sn = R.self_name(im)
